@@ -701,6 +701,79 @@ def stage_string_slots(ctx: Ctx):
                        len(terms), [meta[i] for i in failed])
 
 
+ARGSLOT_PROGS = ['def f(a, b=1): pass', 'def f(*, c): pass', 'def f(p, /, q): pass', 'def f(*v): pass', 'def f(**k): pass', 'def f(a, *v, c=2, **k): pass', 'def f(): pass', 'def f(a: int = 3, /): pass',
+                 'def f(é, /, ü: "t" = None, *, ö=(1, 2)): pass']
+ARGSLOT_TEMPLATES = ['def g(__FST_A, y): ...', 'def g(x, __FST_A): ...', 'def g(*__FST_A, y): ...', 'def g(x, *__FST_A): ...', 'def g(x, **__FST_A): ...', 'def g(x, /, __FST_A): ...', 'def g(*, __FST_A, y): ...',
+                     'def g(__FST_A): ...', 'def g(x, *, y, **__FST_A): ...', 'def g(__FST_A, /, y): ...', 'def g(x=0, *__FST_A, y=1): ...', 'def g(*__FST_A): ...', 'def g(**__FST_A): ...']
+
+
+def _param_rows(args: ast.arguments):
+    d = lambda n: None if n is None else ast.dump(n)
+    rows = []
+    pos = args.posonlyargs + args.args
+    defs = [None] * (len(pos) - len(args.defaults)) + list(args.defaults)
+    for a, df, kind in zip(pos, defs, ['posonly'] * len(args.posonlyargs) + ['arg'] * len(args.args)):
+        rows.append((a.arg, kind, d(a.annotation), d(df)))
+    if args.vararg:
+        rows.append((args.vararg.arg, 'vararg', d(args.vararg.annotation), None))
+    for a, df in zip(args.kwonlyargs, args.kw_defaults):
+        rows.append((a.arg, 'kwonly', d(a.annotation), d(df)))
+    if args.kwarg:
+        rows.append((args.kwarg.arg, 'kwarg', d(args.kwarg.annotation), None))
+    return rows
+
+
+def stage_arguments_slots(ctx: Ctx):
+    """deterministic: a captured `arguments` node put into a slot of a template parameter list, the slot in every position (plain, behind `/`, behind `*`, as `*slot`, as `**slot`, alone)
+    x parameter lists of every kind: the result parses to the live tree, every template parameter is still there with its kind, every captured parameter is there with its name, annotation and
+    default, in order at the slot; its KIND is the slot's for a plain slot (posonly / normal / keyword-only; *v and **k stay what they are) and UNCHANGED for a `*slot` / `**slot` / a lone slot;
+    a refusal leaves the source as it was"""
+    import fst
+    from fst.match import MFunctionDef, M
+    for tpl in ARGSLOT_TEMPLATES:
+        ta = ast.parse(tpl).body[0].args
+        trow = _param_rows(ta)
+        slot = next(r for r in trow if r[0] == '__FST_A')
+        alone = len(trow) == 1
+        for src in ARGSLOT_PROGS:
+            root = fst.FST(src, 'exec')
+            cap = _param_rows(root.a.body[0].args)
+            rec = {'src': src, 'template': tpl}
+            try:
+                root.sub(MFunctionDef(args=M(A=...)), tpl)
+                err = None
+            except Exception as e:
+                err = e
+            ctx.tick(('argslot', tpl, src), 'argslot:' + ('refused' if err is not None else 'done'))
+            if err is not None:
+                if root.src != src:
+                    ctx.violation(f'sub-args-slot|refused-but-changed|{slot[1]}', 'sub() refused an arguments slot but changed the source', {**rec, 'error': repr(err)[:200], 'after': root.src})
+                elif type(err).__name__ not in ('NodeError', 'ValueError', 'SyntaxError', 'ParseError'):
+                    ctx.violation(f'sub-args-slot|raise|{type(err).__name__}', 'sub() with an arguments slot raised an internal error', {**rec, 'error': repr(err)[:200]})
+                continue
+            d = reparse_diffs(root)
+            if d:
+                ctx.violation(f'sub-c01|args-slot|{slot[1]}', 'after sub() with an arguments slot the tree differs from the parse of the source', {**rec, 'result': root.src, 'diffs': d[:4]})
+                continue
+            got = _param_rows(root.a.body[0].args)
+            want = []
+            for r in trow:
+                if r[0] != '__FST_A':
+                    want.append(r)
+                    continue
+                for c in cap:
+                    kind = c[1] if (alone or slot[1] in ('vararg', 'kwarg') or c[1] in ('vararg', 'kwarg')) else slot[1]
+                    want.append((c[0], kind, c[2], c[3]))
+            plain = not (alone or slot[1] in ('vararg', 'kwarg'))
+            capk = {c[0]: c[1] for c in cap}
+            same = lambda x, y: x == y or (plain and x[0] == y[0] and x[2:] == y[2:] and x[0] in capk and x[1] in (capk[x[0]], slot[1]))   # a plain slot turns parameters into its own kind where it can ('pos_maybe'): either kind is accepted there
+            if len(got) != len(want) or not all(same(x, y) for x, y in zip(got, want)):
+                k = next((i for i, (x, y) in enumerate(zip(got, want)) if not same(x, y)), min(len(got), len(want)))
+                ctx.violation(f'sub-struct|args-slot|{slot[1]}|{"kind" if k < min(len(got), len(want)) and got[k][0] == want[k][0] and got[k][2:] == want[k][2:] else "content"}',
+                              'a captured parameter list put into a template slot: a parameter changed its kind (positional-only / normal / keyword-only) without being asked to, or its content',
+                              {**rec, 'result': root.src, 'got': got[k] if k < len(got) else None, 'expected': want[k] if k < len(want) else None})
+
+
 def run(ctx: Ctx):
     ctx.rule = ('corpus + generated programs x 16 scenarios (operand swap, re-shaping with single, slice and quantifier captures, unwrap, wrap the whole match, identity templates for '
                 'several patterns) x nested / flat: FST.subn vs a pure-AST reference (matches decided per node of an untouched twin tree by FST.match, outermost first, template nodes '
@@ -715,6 +788,7 @@ def run(ctx: Ctx):
     run_guarded(ctx, stage_loop)
     run_guarded(ctx, stage_slots)
     run_guarded(ctx, stage_string_slots)
+    run_guarded(ctx, stage_arguments_slots)
     run_guarded(ctx, stage_corr, progs)
 
 
